@@ -45,6 +45,9 @@ type c09Prog struct {
 	Src    string      `json:"source"`
 	Expect interface{} `json:"expect"`
 	Kind   string      `json:"kind"`
+	// Pre: a program run (and expected to fail) before every run but the first. What one request's blocks leave behind
+	// must not show in the next request's blocks.
+	Pre string `json:"pre,omitempty"`
 }
 
 func c09Gen(rng *rand.Rand) c09Prog {
@@ -52,7 +55,15 @@ func c09Gen(rng *rand.Rand) c09Prog {
 	k := int64(2 + rng.Intn(4))
 	lim := int64(1 + rng.Intn(6))
 	thr := int64(rng.Intn(12))
-	switch rng.Intn(11) {
+	switch rng.Intn(12) {
+	case 11: // a block that produces no value, run after a request whose block failed in the middle of an expression
+		pre := []string{
+			fmt.Sprintf("@ GET /t {\n  $ a = %d\n  $ z = 0\n  $ f = async {\n    > [%d, %d, a / z]\n  }\n  > {r: await f}\n}\n", a, 7000+b, 8000+k),
+			fmt.Sprintf("@ GET /t {\n  $ a = %d\n  $ z = 0\n  $ f = async {\n    > {k: %d, v: %d + a / z}\n  }\n  > {r: await f}\n}\n", a, 7000+b, 9000+k),
+			fmt.Sprintf("@ GET /t {\n  $ a = %d\n  $ z = 0\n  $ f = async {\n    $ t = %d * (a + (%d - a / z))\n    > t\n  }\n  > {r: await f}\n}\n", a, 7000+b, 6000+k),
+		}[rng.Intn(3)]
+		src := fmt.Sprintf("@ GET /t {\n  $ a = %d\n  $ f = async {\n    $ y = a + %d\n  }\n  $ g = async {\n    if a > 100 {\n      > 1\n    }\n  }\n  $ r = await f\n  $ q = await g\n  > {r: r, q: q, a: a}\n}\n", a, b)
+		return c09Prog{Src: src, Expect: "SAME-EVERY-TIME", Kind: "block-without-value-after-failed-block", Pre: pre}
 	case 9, 10: // for-in loops inside two sibling blocks and in the parent, all running at once
 		n := 24 + int(lim)*4
 		var elems []string
@@ -64,19 +75,19 @@ func c09Gen(rng *rand.Rand) c09Prog {
 		xs := "[" + strings.Join(elems, ", ") + "]"
 		src := fmt.Sprintf("@ GET /t {\n  $ xs = %s\n  $ f1 = async {\n    $ s = 0\n    for x in xs {\n      for y in xs {\n        s = s + x * %d\n      }\n    }\n    > s\n  }\n  $ f2 = async {\n    $ t = 0\n    for u in xs {\n      for v in xs {\n        t = t + v + %d\n      }\n    }\n    > t\n  }\n  $ p = 0\n  for z in xs {\n    for w in xs {\n      p = p + z\n    }\n  }\n  $ r2 = await f2\n  $ r1 = await f1\n  > {r1: r1, r2: r2, p: p}\n}\n", xs, a, b)
 		nn := int64(n)
-		return c09Prog{src, map[string]interface{}{"r1": sum * nn * a, "r2": sum*nn + nn*nn*b, "p": sum * nn}, "for-loops-in-sibling-blocks-and-parent"}
+		return c09Prog{Src: src, Expect: map[string]interface{}{"r1": sum * nn * a, "r2": sum*nn + nn*nn*b, "p": sum * nn}, Kind: "for-loops-in-sibling-blocks-and-parent"}
 	case 6: // block spawned inside an if body; the parent then assigns the enclosing variable
 		src := fmt.Sprintf("@ GET /t {\n  $ a = %d\n  $ f = async {\n    > 0\n  }\n  if a > 0 {\n    f = async {\n      $ i = 0\n      while i < %d {\n        i = i + 1\n      }\n      > a * %d\n    }\n    a = a + 100\n  }\n  a = a + 1000\n  $ r = await f\n  > {r: r, a: a}\n}\n", a, 50+lim*40, k)
-		return c09Prog{src, map[string]interface{}{"r": a * k, "a": a + 1100}, "spawn-in-if"}
+		return c09Prog{Src: src, Expect: map[string]interface{}{"r": a * k, "a": a + 1100}, Kind: "spawn-in-if"}
 	case 7: // blocks spawned in a loop body, each sees the values of its own iteration
 		src := fmt.Sprintf("@ GET /t {\n  $ base = %d\n  $ fs = []\n  for i in [1, 2, 3] {\n    $ f = async {\n      $ j = 0\n      while j < %d {\n        j = j + 1\n      }\n      > base * 10 + i\n    }\n    fs = fs + [f]\n    base = base + 1\n  }\n  base = base + 500\n  $ f0 = fs[0]\n  $ f1 = fs[1]\n  $ f2 = fs[2]\n  $ r2 = await f2\n  $ r0 = await f0\n  $ r1 = await f1\n  > {r0: r0, r1: r1, r2: r2, base: base}\n}\n", a, 30+lim*30)
-		return c09Prog{src, map[string]interface{}{"r0": a*10 + 1, "r1": (a+1)*10 + 2, "r2": (a+2)*10 + 3, "base": a + 503}, "spawn-in-loop"}
+		return c09Prog{Src: src, Expect: map[string]interface{}{"r0": a*10 + 1, "r1": (a+1)*10 + 2, "r2": (a+2)*10 + 3, "base": a + 503}, Kind: "spawn-in-loop"}
 	case 8: // block spawned inside a while body nested in an if; the enclosing counter moves on
 		src := fmt.Sprintf("@ GET /t {\n  $ n = %d\n  $ w = 0\n  $ f = async {\n    > 0\n  }\n  if n > 0 {\n    while w < 2 {\n      w = w + 1\n      if w == 1 {\n        f = async {\n          $ j = 0\n          while j < %d {\n            j = j + 1\n          }\n          > n * 100 + w\n        }\n      }\n      n = n + 7\n    }\n  }\n  > {r: await f, n: n, w: w}\n}\n", a, 40+lim*30)
-		return c09Prog{src, map[string]interface{}{"r": a*100 + 1, "n": a + 14, "w": int64(2)}, "spawn-in-nested-while"}
+		return c09Prog{Src: src, Expect: map[string]interface{}{"r": a*100 + 1, "n": a + 14, "w": int64(2)}, Kind: "spawn-in-nested-while"}
 	case 0: // arithmetic over captured values; parent reassigns the captured variable afterwards
 		src := fmt.Sprintf("@ GET /t {\n  $ a = %d\n  $ b = %d\n  $ f = async {\n    > a * %d + b\n  }\n  $ c = a + b\n  $ r = await f\n  > {r: r, c: c}\n}\n", a, b, k)
-		return c09Prog{src, map[string]interface{}{"r": a*k + b, "c": a + b}, "arith"}
+		return c09Prog{Src: src, Expect: map[string]interface{}{"r": a*k + b, "c": a + b}, Kind: "arith"}
 	case 1: // control flow inside the block
 		var r int64
 		t := a + b
@@ -86,23 +97,23 @@ func c09Gen(rng *rand.Rand) c09Prog {
 			r = t
 		}
 		src := fmt.Sprintf("@ GET /t {\n  $ a = %d\n  $ b = %d\n  $ f = async {\n    $ t = a + b\n    if t > %d {\n      > t * 2\n    }\n    > t\n  }\n  > {r: await f}\n}\n", a, b, thr)
-		return c09Prog{src, map[string]interface{}{"r": r}, "if-in-block"}
+		return c09Prog{Src: src, Expect: map[string]interface{}{"r": r}, Kind: "if-in-block"}
 	case 2: // loop inside the block
 		s := int64(0)
 		for i := int64(0); i < lim; i++ {
 			s += (i + 1) * a
 		}
 		src := fmt.Sprintf("@ GET /t {\n  $ a = %d\n  $ f = async {\n    $ s = 0\n    $ i = 0\n    while i < %d {\n      i = i + 1\n      s = s + i * a\n    }\n    > s\n  }\n  $ z = a * 100\n  > {r: await f, z: z}\n}\n", a, lim)
-		return c09Prog{src, map[string]interface{}{"r": s, "z": a * 100}, "while-in-block"}
+		return c09Prog{Src: src, Expect: map[string]interface{}{"r": s, "z": a * 100}, Kind: "while-in-block"}
 	case 3: // several futures awaited in another order than spawned, one awaited twice
 		src := fmt.Sprintf("@ GET /t {\n  $ a = %d\n  $ b = %d\n  $ f1 = async {\n    > a + 1\n  }\n  $ f2 = async {\n    > b * 2\n  }\n  $ f3 = async {\n    > [a, b]\n  }\n  $ r3 = await f3\n  $ r2 = await f2\n  $ r1 = await f1\n  $ r1b = await f1\n  > {r1: r1, r2: r2, r3: r3, again: r1b}\n}\n", a, b)
-		return c09Prog{src, map[string]interface{}{"r1": a + 1, "r2": b * 2, "r3": []interface{}{a, b}, "again": a + 1}, "multi"}
+		return c09Prog{Src: src, Expect: map[string]interface{}{"r1": a + 1, "r2": b * 2, "r3": []interface{}{a, b}, "again": a + 1}, Kind: "multi"}
 	case 4: // nested blocks
 		src := fmt.Sprintf("@ GET /t {\n  $ a = %d\n  $ f = async {\n    $ g = async {\n      > a * %d\n    }\n    $ inner = await g\n    > inner + 1\n  }\n  > {r: await f}\n}\n", a, k)
-		return c09Prog{src, map[string]interface{}{"r": a*k + 1}, "nested"}
+		return c09Prog{Src: src, Expect: map[string]interface{}{"r": a*k + 1}, Kind: "nested"}
 	default: // a block that fails: await raises its error every time -> the route fails
 		src := fmt.Sprintf("@ GET /t {\n  $ a = %d\n  $ z = 0\n  $ f = async {\n    > a / z\n  }\n  $ r = await f\n  > {r: r}\n}\n", a)
-		return c09Prog{src, "ERROR", "error-in-block"}
+		return c09Prog{Src: src, Expect: "ERROR", Kind: "error-in-block"}
 	}
 }
 
@@ -116,6 +127,18 @@ func c09Check(w *mon.W, p c09Prog, engine string, idx int) {
 	for run := 0; run < 6; run++ {
 		runtime.GOMAXPROCS([]int{1, 4, 16, 2, 1, 16}[run])
 		var o engOut
+		if p.Pre != "" && run > 0 {
+			if pmod, perr := parseModule(p.Pre); perr == nil {
+				w.Watch(fmt.Sprintf("async program %d on %s (failing predecessor, run %d)", idx, engine, run), 30*time.Second, func() {
+					if engine == "interpreter" {
+						runInterp(nil, pmod, "/t")
+					} else if bc, cerr := compiler.NewCompilerWithOptLevel(compiler.OptBasic).CompileRoute(firstRoute(pmod)); cerr == nil {
+						runVM(bc, nil, 2000000)
+					}
+				})
+				w.Count("failing_predecessors_run", 1)
+			}
+		}
 		w.Watch(fmt.Sprintf("async program %d on %s (run %d)", idx, engine, run), 30*time.Second, func() {
 			if engine == "interpreter" {
 				o = runInterp(nil, mod, "/t")
@@ -145,6 +168,11 @@ func c09Check(w *mon.W, p c09Prog, engine string, idx int) {
 	want, _ := canon(p.Expect)
 	got := outs[0]
 	switch {
+	case p.Expect == "SAME-EVERY-TIME":
+		// what a block without `>` yields is not pinned here; that it is the same on every run is (checked above)
+		if got.Kind == "panic" {
+			w.Violate("engine-panic:"+engine+":"+p.Kind, engine+" panicked: "+got.Err, wit)
+		}
 	case p.Expect == "ERROR":
 		if got.Kind != "error" {
 			w.Violate("failed-block-not-raised-by-await:"+engine, fmt.Sprintf("%s: the block fails (division by zero) but the route gives %s", engine, c01Show(got)), wit)
